@@ -40,7 +40,7 @@ REQUIRED_REACH = ['CompositionConversionMCNPToT4.py:compositionConversionMCNPToT
 FAMILIES = ['atom-massrho', 'mass-massrho', 'atom-atomrho', 'natural',
             'suffixes', 'keywords', 'many-entries', 'exponents', 'heavy-z',
             'two-densities', 'repeated-nuclide', 'same-value-spellings',
-            'keywords-blank-forms', 'm0-card', 'mixed-signs']
+            'keywords-blank-forms', 'm0-card', 'mass-atomrho', 'mixed-signs']
 _PER = {'quick': 14, 'thorough': 4000}
 
 
@@ -138,7 +138,10 @@ def build(case):
                 keywords.append((rng.randint(0, nent),
                                  rng.choice(['nlib 70c', 'nlib = 70c',
                                              'gas= 1', 'plib =04p',
-                                             'NLIB 80c', 'estep = 10'])))
+                                             'NLIB 80c', 'estep = 10',
+                                             'refi=1.33',
+                                             'refc=1.3199 0.006878 0 0',
+                                             'refs 1 2 3 4 5 6'])))
         deck.mats.append(M.Material(mid_num, entries, keywords))
         # densities
         dens = []
@@ -270,9 +273,16 @@ def judge_composition(out, comp, label, entries, negative, rho_val):
     if True:
         want_names = [matref.nuclide_name(z) for z, _f in entries]
         got_names = [n for n, _v in comp['items']]
+        # weight fractions used at an atom density: the amounts need atomic
+        # masses, which this reference does not have; only the list is judged
+        unsupported = negative and rho_val > 0
         if got_names != want_names:
             out.violation('nuclides', f'{label}: expected {want_names}, '
-                          f'written {got_names}')
+                          f'written {got_names}',
+                          mech='mass-fractions-at-atom-density-not-converted'
+                          if unsupported and not got_names else None)
+            return
+        if unsupported:
             return
         out.counters['nuclides_judged'] += len(want_names)
         fracs = [abs(matref.fortran_float(f)) for _z, f in entries]
